@@ -80,9 +80,48 @@ func rulePos(c *Ctx) {
 			writeAt = call
 		}
 	}
+	// writeEv: the instruction of f that stands for the write (the WriteAt itself, or the call to a helper
+	// that encodes and writes the element it is handed)
+	var writeEv ssa.Instruction = writeAt
+	var helper *ssa.Function
+	if writeAt == nil {
+		if h := wl.encode.Call.StaticCallee(); h != nil && c.P.inModule(h) && h.Blocks != nil && !calleeIs(&wl.encode.Call, modPath, "Entry", "Encode") {
+			calls(h, func(ci ssa.CallInstruction) {
+				call, ok := ci.(*ssa.Call)
+				if !ok || !calleeIs(&call.Call, modPath, "DataFile", "WriteAt") || len(call.Call.Args) < 3 {
+					return
+				}
+				if e, ok := resolve1(call.Call.Args[1]).(*ssa.Call); ok && calleeIs(&e.Call, modPath, "Entry", "Encode") {
+					if _, isParam := resolve1(e.Call.Args[0]).(*ssa.Parameter); isParam {
+						writeAt, helper = call, h
+					}
+				}
+			})
+			// the helper must run on the same transaction and must not switch the active file itself
+			if helper != nil {
+				sameRecv := len(wl.encode.Call.Args) > 0 && len(f.Params) > 0 && sameValue(wl.encode.Call.Args[0], f.Params[0])
+				if !sameRecv || writesLoc(c, wl.encode, map[string]bool{"DB.ActiveFile": true, "DataFile.fileID": true}) {
+					writeAt, helper = nil, nil
+				} else {
+					writeEv = wl.encode
+					c.touch(helper)
+					pre := interveningWrite(c, helper, helper.Blocks[0].Instrs[0], writeAt, map[string]bool{"DataFile.writeOff": true, "DB.ActiveFile": true}, nil)
+					c.check(pre == nil, fnName(helper), "the write helper does not move the offset or the active file before it writes", c.P.ipos(writeAt), "", "the helper that writes the record changes the write offset or the active file before the WriteAt: the position read by its caller is stale")
+				}
+			}
+		}
+	}
 	if writeAt == nil {
 		c.undecided(fnName(f), "write call", c.P.ipos(wl.encode), "the Encode result is not passed directly to DataFile.WriteAt")
 		return
+	}
+	// access paths are compared relative to the receiver when the write sits in a helper
+	relPath := func(v ssa.Value) string {
+		root, sfx := splitPath(v)
+		if p, ok := root.(*ssa.Parameter); ok && len(p.Parent().Params) > 0 && p == p.Parent().Params[0] {
+			return "recv" + sfx
+		}
+		return pathOf(v)
 	}
 	offArg := writeAt.Call.Args[2]
 	okW := isFieldLoad(offArg, "DataFile", "writeOff")
@@ -138,12 +177,15 @@ func rulePos(c *Ctx) {
 				c.bad(fnName(g), det+": dataPos comes from the write loop", c.P.ipos(h), "Hint.dataPos is not the offset variable of the commit write loop")
 				continue
 			}
-			same := isFieldLoad(posVal, "DataFile", "writeOff") && pathOf(posVal) == pathOf(offArg)
+			same := isFieldLoad(posVal, "DataFile", "writeOff") && relPath(posVal) == relPath(offArg)
 			c.check(same, fnName(g), det+": dataPos is the offset the record was written at", c.P.ipos(h),
 				"Hint.dataPos and the WriteAt offset are reads of the same location "+dispPath(offArg), "Hint.dataPos ("+dispPath(posVal)+") is not the location passed to WriteAt ("+dispPath(offArg)+")")
 			if same {
 				pi, _ := posVal.(ssa.Instruction)
 				oi, _ := resolve1(offArg).(ssa.Instruction)
+				if helper != nil {
+					oi = writeEv // in f the helper call is where the offset is read again and the record written
+				}
 				if pi != nil && oi != nil {
 					first, second := pi, oi
 					if !forwardHas(f, pi, oi, incr) {
@@ -155,7 +197,9 @@ func rulePos(c *Ctx) {
 					}
 					if bad == nil {
 						// also nothing between the later read and the WriteAt itself
-						bad = interveningWrite(c, f, second, writeAt, locs, incr)
+						if second != writeEv {
+							bad = interveningWrite(c, f, second, writeEv, locs, incr)
+						}
 					}
 					msg := ""
 					if bad != nil {
@@ -169,7 +213,7 @@ func rulePos(c *Ctx) {
 			okF := isFieldLoad(fid, "DataFile", "fileID") && func() bool { _, b := lastField(fid); return isFieldLoad(b, "DB", "ActiveFile") }()
 			c.check(okF, fnName(g), det+": fileID is the active file's id", c.P.ipos(h), "", "Hint.fileID is not read from DB.ActiveFile.fileID")
 			if okF && idxCall != nil {
-				bad := interveningWrite(c, f, writeAt, idxCall, map[string]bool{"DB.ActiveFile": true, "DataFile.fileID": true}, incr)
+				bad := interveningWrite(c, f, writeEv, idxCall, map[string]bool{"DB.ActiveFile": true, "DataFile.fileID": true}, incr)
 				msg := ""
 				if bad != nil {
 					msg = "between writing the record and indexing it, " + c.P.ipos(bad) + " may switch the active file: the hint would name another segment"
